@@ -237,9 +237,25 @@ def roundtrip(tier):
         for extra in ([], ["--multi-line"] if name != "a.py" and name != "e.py" else [], ["--merge-copyrights"]):
             cases += 1
             one_roundtrip(failures, "pre-existing header", {name: content}, name, extra, HOLDERS[:2], LICS[:1], CONTRIB[:1])
+    # G. requests whose notice the reader cannot return verbatim: either refused (nothing written) or read back exactly
+    awkward = ["Jane Doe -->", "Example GmbH {R&D #}", "ACME (Research *)", "Jane Doe :)", "Team */", "X ]::", "Quote \">", "2020 Jane Doe   "]
+    for name in ("a.py", "b.c", "c.html", "d.el", "e.jinja2", "f.ml"):
+        for h in awkward:
+            for extra in ([], ["--force-dot-license"]):
+                cases += 1
+                one_roundtrip(failures, "holder ending in a comment terminator", {name: body}, name, extra, [h], LICS[:1], [], may_fail=True)
+    tpl_extra = {".reuse/templates/extra.jinja2": "{% for copyright_line in copyright_lines %}\n{{ copyright_line }} and contributors\n{% endfor %}\n"
+                                                  "{% for expression in spdx_expressions %}\nSPDX-License-Identifier: {{ expression }}\n{% endfor %}\n",
+                 ".reuse/templates/literal.jinja2": "SPDX-FileCopyrightText: 1999 Template Owner\n{% for copyright_line in copyright_lines %}\n{{ copyright_line }}\n{% endfor %}\n"
+                                                    "{% for expression in spdx_expressions %}\nSPDX-License-Identifier: {{ expression }}\n{% endfor %}\n"}
+    for name in ("a.py", "b.c"):
+        for tname in ("extra", "literal"):
+            cases += 1
+            one_roundtrip(failures, "template that alters the notice line", {name: body, **tpl_extra}, name, ["--template", tname], HOLDERS[:1], LICS[:1], [], may_fail=True)
     return Bounded("annotate-roundtrip", "complete extension and file-name tables (default options); every --style x {default, --multi-line, "
                    "--single-line}; 10 prefixes x 4 year options; sidecar / binary / unrecognised; custom, commented and information-dropping "
-                   "templates; pre-existing headers; holders with < > & ' \" and non-ASCII", cases, failures[:12],
+                   "templates; pre-existing headers; holders with < > & ' \" and non-ASCII; holders ending in comment terminators and templates altering the notice "
+                   "line (refused or read back exactly)", cases, failures[:12],
                    "real `reuse annotate`, read back with Project.reuse_info_of")
 
 
@@ -271,6 +287,9 @@ def bodies(style_cls, comment):
         out.append((f"first-line declaration {sb}", "", "", line + "\nzz BODY1\n"))
         out.append((f"first-line declaration {sb} + header", "", "", line + "\n" + hdr + "\n\nzz BODY1\n"))
         out.append((f"byte order mark + {sb}", "", "", BOM + line + "\nzz BODY1\n"))
+        later = sb + (" BODY5 later line ?>" if sb.startswith("<?") else " BODY5 later line")
+        out.append((f"{sb} again on a later line", "", "", line + "\nzz BODY1\n" + later + "\nyy BODY2\n"))
+        out.append((f"{sb} again on a later line + header", "", "", line + "\n" + hdr + "\n\nzz BODY1\n\n" + later + "\nyy BODY2\n"))
     out.append(("byte order mark", "", "", BOM + "zz BODY1\n"))
     return out
 
@@ -530,6 +549,9 @@ def idempotence(tier):
                         bs.append(style.create_comment("BODY2 a remark in the same style") + "\n\n" + start)
                     for b in bs:
                         twice("every style", {"f.txt": b}, "f.txt", ["--style", sname] + multi, info, n=3 if tier == "thorough" else 2)
+    for name in ("a.py", "b.c"):
+        twice("merge on the first run", {name: "zz BODY1\n"}, name, ["--merge-copyrights"],
+              (["Copyright 2015 Jane", "Copyright 2019 Jane", "SPDX-FileCopyrightText: 2001 Other"], ["MIT"], []), n=3)
     for table, mk in ((ext_map, lambda e: "file" + e), (name_map, lambda n: n)):
         keys = sorted(table)
         for key in (keys if tier == "thorough" else keys[::4]):
